@@ -5,18 +5,19 @@ RULE = ("P1: TLC checks the control-flow models of the rejection/iteration sampl
         "for termination under strong fairness of the accepting steps and for the range of the returned value, in all "
         "ten parameter regimes; P3: for every (law, parameter point) of the reference table (77 points forcing every "
         "algorithm branch: gamma shape <1/3, <1, >=1 and beta / chi-squared / t built on it; Poisson rate <10, >=10, "
-        ">=150; binomial inversion / BTPE, p > 1/2, p in {0,1}, n = 0; equal bounds; Beta with both shapes below 0.05) "
-        "and for multivariate normals of dimension 1..4, n = 2e5 (quick) / 2e6 (thorough, 2 seeds) draws are taken from"
-        " the real sampler in a watchdog thread; TLC (Trace_Samplers) validates: returned in time, exactly n draws, "
-        "matrix shape, every draw in the support (strict where open; integer-valued for discrete laws), same seed => "
-        "same stream, and empirical counts at the 7..25 table thresholds inside the DKW band (alpha = 1e-12) of n F(t);"
-        " requests of 2^20+3 draws and a 1500 x 1000 sample matrix return exactly what was asked for; binomial laws "
-        "with up to 2e7 trials and a success probability within 2^-22 of 0 or 1 against an mpmath CDF table; degenerate"
-        " continuous uniform laws (lower = upper; constructor, setter, update) return their single support point; every"
-        " row is sampled a second and third time (4e4 draws) from an object moved to its parameters by update / by the "
-        "setters; two of the MVN covariances have an exact zero where the Cholesky factor fills in; MVN cases are "
-        "repeated with the covariance factor times 2^-22 and 2^14; MVN draws are whitened with the driver's L: every "
-        "coordinate and two projections against the standard normal CDF. Case class = (law, regime).")
+        ">=150; binomial inversion / BTPE, p > 1/2, p in {0,1}, n = 0; equal bounds; Beta with both shapes below 0.05; "
+        "3000 trials with a success probability just below 1/100 and mirrored) and for multivariate normals of "
+        "dimension 1..4, n = 2e5 (quick) / 2e6 (thorough, 2 seeds) draws are taken from the real sampler in a watchdog "
+        "thread; TLC (Trace_Samplers) validates: returned in time, exactly n draws, matrix shape, every draw in the "
+        "support (strict where open; integer-valued for discrete laws), same seed => same stream, and empirical counts "
+        "at the 7..25 table thresholds inside the DKW band (alpha = 1e-12) of n F(t); requests of 2^20+3 draws and a "
+        "1500 x 1000 sample matrix return exactly what was asked for; binomial laws with up to 2e7 trials and a success"
+        " probability within 2^-22 of 0 or 1 against an mpmath CDF table; degenerate continuous uniform laws (lower = "
+        "upper; constructor, setter, update) return their single support point; every row is sampled a second and third"
+        " time (4e4 draws) from an object moved to its parameters by update / by the setters; two of the MVN "
+        "covariances have an exact zero where the Cholesky factor fills in; MVN cases are repeated with the covariance "
+        "factor times 2^-22 and 2^14; MVN draws are whitened with the driver's L: every coordinate and two projections "
+        "against the standard normal CDF. Case class = (law, regime).")
 ASSUMPTIONS = ["true CDF values come from the committed mpmath table; nF = round(n F(t)) is formed by the harness, the acceptance band by the spec",
                "DKW false-alarm probability <= 1e-12 per threshold; measured sup-deviation on the unchanged tree below half the band in every case",
                "a sampler that does not return within 30 s (+ n / 20000 s) is reported as 'timeout' (a violation of 'sampling terminates'), not as a tool error"]
